@@ -20,12 +20,12 @@ OPEN = {
     "C02": ["C02_parse_sem for an ARBITRARY surface style -- proved for the canonical style (C02_canonical_text) and in layers for arbitrary styles (tokenizer under any padding, unknown attributes ignored, attribute order for three tags, dispatch, source order); the composition over all styles is not one theorem; frame rates enter as ufloat_rt"],
     "C03": ["C03_roundtrip_parsed is stated for parse results with durations below 2^20 s and plain unquoted SCTE35-* values (media_small: decidable, no reference to the float conversions); outside it (a duration of 12 days or more, an unquoted SCTE35-* value with a comma or quote, which the writer cannot express) the round trip is sampled by the correspondence check only",
             "byte-identical second serialisation and the order inside a key list: FALSE in general (known findings D20, D9-K1); keys are compared as sets, a map's keys are the reader's keys"],
-    "C04": ["ufloat_rt x (FRAME-RATE) / float_rt x (TIME-OFFSET) for every f32 with at most 3 decimals: C04_roundtrip holds for every parse result under this decidable hypothesis on the modelled std float conversions; float_rt holds for every float the reader accepts (C18_parsed_float); ufloat_rt (the {:.3} writer) is not a theorem for arbitrary values (true for rates that are three-decimal numbers: sweep C18_frame_rate_sweep, exercised by the correspondence check)"],
+    "C04": ["C04_roundtrip carries floats_master p (decidable): it holds for every TIME-OFFSET the reader accepts and every FRAME-RATE with at most three decimals below 8192 (C04_float_hypotheses); a FRAME-RATE text with more decimals parses to a value the {:.3} writer cannot reproduce -- a property of the writer's format, sampled by the correspondence check; that the floats of a PARSED master playlist satisfy it is not threaded through the master parser (done for media playlists: C03_roundtrip_parsed)"],
     "C05": ["C05_cost: cost_parse s <= c1*|s| + c2*|items s|*K s -- no cost model was built; time scaling is MEASURED in the thorough tier (five input families at n and 4n, evidence field streams.time_scaling), not proved"],
     "C12": ["C12_restyle as ONE theorem over whole playlists: forall sty1 sty2 a, parse (render sty1 a) = parse (render sty2 a) -- proved per transformation: CRLF, blank lines, line padding, comments, redundant version tags, unknown tags (arbitrary text / item lists), and, for every attribute-list parser, any attribute order + any padding + unknown attributes (C12_any_attribute_syntax); the relative order of playlist-level tags and of the non-key tags of a segment is C12_tag_order (item level, media playlists; EXT-X-KEY and DISCONTINUITY-SEQUENCE excluded because they are position dependent); for master playlists the five lists are independent by construction (C02_source_order)"],
     "C14": ["C14_T for STREAM-INF / I-FRAME-STREAM-INF as an iff over all attribute lists: stream tags are by typing (BANDWIDTH / URI are required fields of the result); keys are an iff since C14_key_iff"],
     "C16": ["C16_slide is proved for the restatement the WRITER produces for the slid value (keys and maps re-announced by the library itself); a server that restates tags differently (e.g. repeats all keys in another order) is covered by C06/C12 only"],
-    "C18": ["C18_frame_rate: ufloat_rt x for the {:.3} writer of FRAME-RATE (print_fixed3): parsing the three-decimal text gives x back only for the f32 nearest to a three-decimal number -- a decidable hypothesis of the STREAM-INF theorems (true for every rate up to 61.00 in hundredths and the standard rates: C18_frame_rate_sweep), not a theorem for arbitrary x and not claimed by the property (FRAME-RATE is a decimal-floating-point with at most three decimals); the types' own text forms (Float, UFloat, Duration) ARE theorems for every value since C18_f32_text / C18_uf32_text / C18_duration_text"],
+    "C18": ["FRAME-RATE values that are NOT the nearest f32 to a number with at most three decimals (or are 8192 and above): the {:.3} writer prints a different number, so ufloat_rt is false by design; for every three-decimal rate below 8192 it is a theorem (C18_frame_rate_3dec), as are the types' own text forms for every finite f32 and every Duration below 2^20 s (C18_f32_text, C18_uf32_text, C18_duration_text)"],
     "C20": ["C20_ops: run_builder (the call sequence for a content) = build (builder_of ...) -- the step from a sequence of public builder CALLS (setters, push_segment / segments, tag arguments given as text) to the builder record is proved for the setters (commute / last wins) and the slot vector; that the calls for a content produce exactly `builder_of p raws` is sampled by the correspondence check, not proved; C20_rebuild / C20_paths_agree are stated on the builder record"],
 }
 
